@@ -20,6 +20,9 @@ func NewStore(db *badger.DB) *Store {
 }
 
 func (s *Store) Get(k []byte) ([]byte, error) {
+	if err := verifhook.BeforeRead("obj-get"); err != nil {
+		return nil, err
+	}
 	var v []byte
 	err := s.db.View(func(txn *badger.Txn) error {
 		item, err := txn.Get(k)
